@@ -57,6 +57,9 @@ def real_parse(src):
         e = SVE(FakeMatch(source=src))
     except (ValueError, OverflowError, ZeroDivisionError, RecursionError, AttributeError, TypeError, IndexError) as ex:
         return type(ex).__name__
+    import math
+    if any(isinstance(p, float) and math.isinf(p) for p in e.string._string):
+        return "infinite-float"       # a decimal beyond the float range: the string holds float('inf'), outside the model's numbers
     return ("ok", c_svs(e.string), e.children)
 
 
